@@ -111,6 +111,26 @@ CLAIMED = {
             "combinations, plus reflexivity, copy and ==; TLC decides from the two observed contents whether the pair must "
             "compare equal or must differ and checks the results.",
             "Pairs for which the property prescribes nothing (non-uniform channel relabelling under ignore_channel) are not judged.", "6 (C17)"),
+    "C12": ("MidiCodec", "TLC model check of the writer/reader system of MidiCodec.tla (delta-time buffer, exact-position rounding) + "
+            "pieces saved and loaded by the real code + TLC trace validation",
+            "TLC checks on every piece x 8 resolutions that the sum of written deltas equals the source tick of every event "
+            "(messages that write nothing between waits included), that every placed event is a nearest tick of its exact "
+            "position, and identity at the library resolution. The pieces (alone and in families) and seeded random lists of "
+            "1-3 sequences (all 15 keys, velocities 1..127, signatures at distinct arbitrary ticks, leading rests, program and "
+            "control changes) are saved and loaded by the real code; TLC requires one sequence per saved one, identical "
+            "notes, signatures in force at every signature tick equal to the saved ones (4/4 default) and none off the meta "
+            "sequence.",
+            "mido is trusted to write and read files; saved sequences are single-channel per pitch (a MIDI track written by "
+            "the library carries no channel).", "6 (C12/C13)"),
+    "C13": ("MidiCodec", "same writer/reader model + files written directly with mido at 13 resolutions loaded by the real code "
+            "under random routing + TLC trace validation against the file as parsed by mido",
+            "For each loaded note and signature event TLC requires a file event of its class whose exact position "
+            "fileTick*24/res it is nearest to (positions are cumulative file ticks, so accumulated error would show), the "
+            "sounding set of every group to be the union of its tracks' notes with both ends rounded (checked when no event "
+            "lies exactly half way, where the rounding direction is free), signatures of all considered tracks in force on "
+            "the target sequence and nowhere else, the 4/4 default, and well-formed output. Files include sub-resolution "
+            "notes, runs of 1-tick deltas, note-on velocity 0 as note-off, tracks outside every group.",
+            "mido is trusted; ties at exactly half a tick are judged by the nearest-tick clause only.", "6 (C12/C13)"),
 }
 PENDING = {}
 props = [json.loads(l) for l in open(V / "properties.jsonl")]
